@@ -158,9 +158,12 @@ SPECS = {
 }
 
 
-def spec_term_for(case):
+SPEC_STEPS = 80   # the from-scratch formula costs O(t * window) per step (O(t^2) for cascades): evaluated on a prefix
+
+
+def spec_term_for(case, limit=SPEC_STEPS):
     if case.name not in SPECS:
         return None
     f, nv, kind = SPECS[case.name]
     cfg = eff_config(case.t, case.sets)
-    return "ind_spec (%s) %s [] [%s]" % (f(cfg), cq_candle(case.c0), "; ".join(cq_candle(c) for c in case.cs))
+    return "ind_spec (%s) %s [] [%s]" % (f(cfg), cq_candle(case.c0), "; ".join(cq_candle(c) for c in case.cs[:limit]))
